@@ -455,6 +455,51 @@ func init() {
 }
 
 func init() {
+	// "on TLS the port key is ignored" — also for an acknowledgement that is handled while the application is closing the
+	// connection: a handler holds the event loop, the ACK (with a port key) is queued behind it, Close() is called, the handler
+	// returns.  Connect returns; nothing is dialled again.
+	runners["ststlsclose"] = func(c *Ctx, in map[string]string) {
+		hin := hexIn(in)
+		cfg := girc.Config{Server: "irc.example.org", Port: 6667, Nick: "me", User: "me", TLSConfig: &tls.Config{InsecureSkipVerify: true}}
+		cl := girc.New(cfg)
+		girc.VerifSetSTS(cl, 6697, 100, time.Second, -1)
+		entered, gate := make(chan struct{}, 1), make(chan struct{})
+		cl.Handlers.Add(girc.NOTICE, func(_ *girc.Client, e girc.Event) {
+			if e.Last() == "hold" {
+				select {
+				case entered <- struct{}{}:
+				default:
+				}
+				<-gate
+			}
+		})
+		p := newPeer("tls", "WUSER", "S:srv CAP * LS :multi-prefix sts=port=7000,duration=100", "WCAP REQ", "S:srv NOTICE * :hold", "S:srv CAP * ACK :multi-prefix sts")
+		d := &scriptDialer{peers: []*peerScript{p, newPeer("sniff"), newPeer("sniff")}}
+		done := make(chan string, 1)
+		go func() { done <- connectWithTimeout(cl, d) }()
+		select {
+		case <-entered:
+		case <-time.After(6 * time.Second):
+			close(gate)
+			c.R.Mismatch("sts.tlsclose_setup", hin, "the NOTICE handler was never entered", "")
+			<-done
+			return
+		}
+		time.Sleep(150 * time.Millisecond) // the ACK has been read and waits behind the handler
+		cl.Close()
+		time.Sleep(20 * time.Millisecond)
+		close(gate)
+		r1 := <-done
+		d.wg.Wait()
+		d.mu.Lock()
+		dials := append([]string{}, d.dials...)
+		d.mu.Unlock()
+		if r1 != "nil" || len(dials) != 1 {
+			c.R.Violation("sts.tls_port_acted_on_during_close", hin, fmt.Sprintf("r1=%s dials=%v sts=%s", r1, dials, stsDump(cl)), "r1=nil, one dial",
+				"an STS acknowledgement with a port key, received on a TLS connection and handled while Close() was in progress, was acted on (redial / no return): on TLS the port key is ignored")
+		}
+		c.R.Count("ststlsclose", true, "tls-ack-during-close")
+	}
 	// "later connects of the same client keep using TLS on that port": a policy's lifetime is counted from the END of the
 	// last connection made under it (IRCv3 sts: the expiry is re-based at disconnection), so a TLS session that outlasts
 	// the duration and is then closed cleanly leaves an UNEXPIRED policy: a failing redial is an upgrade error, never a
@@ -584,6 +629,8 @@ func runC10(c *Ctx) {
 		r.Count(fmt.Sprint(in), true, "dialfail-default-port")
 		r.Traces++
 	}
+	c.run("ststlsclose", map[string]string{"scenario": "TLS, handler holds the loop, ACK with port queued, Close, release"})
+	r.Traces++
 	r.Exhaustive = true
 	for _, port := range []string{"6697", "-1"} {
 		for _, age := range [][2]string{{"1000", "5"}, {"10", "50"}, {"-1", "0"}, {"9223372036854775807", "5"}, {"10000000000", "100"}, {"31536000", "86400"}, {"50", "50"}, {"50", "52"}} {
